@@ -84,4 +84,39 @@ CONTRACTS = {
         },
         'ensures': ['result._numvar == G.m', 'result.cls == formula_class'],
     },
+    # ---- Markstrom's even colouring formula: every vertex has exactly half of its edges true; refused on an odd degree
+    (G_, 'GraphAbs.degree'): {
+        'assumed': 'degree view of the abstract graph = length of the neighbour list (C16 proves Graph.degree against the representation)',
+        'params': {'u': 'int'}, 'raises': {'ValueError': 'not (1 <= u and u <= self.n)'}, 'returns_expr': 'ilen(nbrs(self.gid, u))'},
+    (V_, 'EdgeGroup.indices'): {
+        'assumed': 'index enumeration of the edge group (C11): indices(v, None) lists the edges at v as sorted pairs, in neighbour order',
+        'params': {}, 'requires': ['len(pattern) == 2', 'pattern[1] is None', '1 <= pattern[0]', 'pattern[0] <= self.n'],
+        'returns_expr': 'pairsof(lam1(lambda j: zmin(pattern[0], iget(nbrs(self.graph, pattern[0]), j))), '
+                        'lam1(lambda j: zmax(pattern[0], iget(nbrs(self.graph, pattern[0]), j))), ilen(nbrs(self.graph, pattern[0])))'},
+    (F_, 'FormulaT.cardinality_eq'): {
+        'assumed': 'interface meaning of cardinality_eq (proved for both classes: C04)',
+        'params': {'lits': 'iseq', 'value': 'int', 'check': 'bool'}, 'ghost_params': {'a': 'asg'},
+        'raises': {'ValueError': 'check and haszero(lits)'},
+        'modifies': ['self.store', 'self._numvar'],
+        'ensures': ['sat(a, self.store) == (sat(a, old(self.store)) and count(a, lits) == value)',
+                    'self._numvar == ite(check, zmax(old(self._numvar), maxabs(lits)), old(self._numvar))']},
+    ('cnfgen/families/coloring.py', 'EvenColoringFormula'): {
+        'property': ['C02', 'C08', 'C10'],
+        'params': {'G': 'obj:GraphAbs', 'formula_class': 'class:FormulaT'},
+        'ghost_params': {'a': 'asg'},
+        # refused exactly when some vertex has odd degree
+        'raises': {'ValueError': 'not forall(lambda w: implies(1 <= w and w <= G.n, ilen(nbrs(G.gid, w)) % 2 == 0))'},
+        'loops': {0: {'ghost_at_entry': {'S0': 'F.store'},
+                      'inv': ['F._numvar == G.m',
+                              'forall(lambda w: implies(1 <= w and w <= _it, ilen(nbrs(G.gid, w)) % 2 == 0))',
+                              'sat(a, F.store) == (sat(a, S0) and forall(lambda w: implies(1 <= w and w <= _it, EVEN)))'],
+                      'modifies_objects': ['F'], 'modifies_fields': {'F': ['store', '_numvar']}}},
+        'ensures': ['sat(a, result.store) == forall(lambda w: implies(1 <= w and w <= G.n, EVEN))',
+                    'result._numvar == G.m', 'result.cls == formula_class'],
+    },
 }
+EVEN = ('2 * count(a, iofarr(lam1(lambda j: evar(created("EdgeGroup", 0).gid, zmin(w, iget(nbrs(G.gid, w), j)), zmax(w, iget(nbrs(G.gid, w), j)))), '
+        'ilen(nbrs(G.gid, w)))) == ilen(nbrs(G.gid, w))')
+_c = CONTRACTS[('cnfgen/families/coloring.py', 'EvenColoringFormula')]
+_c['loops'][0]['inv'] = [t.replace('EVEN', EVEN) for t in _c['loops'][0]['inv']]
+_c['ensures'] = [t.replace('EVEN', EVEN) for t in _c['ensures']]
